@@ -25,7 +25,9 @@ TM_ = ["Opaque", "x.ext", "Tmissing", C, []]
 EXT_DEFS = {
     "x.ext": {
         "types": {"Ta": ([], ["Explicit", C]), "Tb": ([["TP", A]], ["FromParams", [0]])},
-        "ops": {"oa": ["Poly", [], ["G", [TA_], [TA_, BOOL], []]], "ob": ["Poly", [["TP", A]], ["G", [["V", 0, A]], [TB_(["V", 0, A])], []]]},
+        "ops": {"oa": ["Poly", [], ["G", [TA_], [TA_, BOOL], []]], "ob": ["Poly", [["TP", A]], ["G", [["V", 0, A]], [TB_(["V", 0, A])], []]],
+                # a definition whose signature is *computed* (no static type scheme) and that still takes type arguments
+                "obin": None},
     },
     "y.ext": {"types": {"Tc": ([], ["Explicit", A])}, "ops": {"oc": ["Poly", [], ["G", [TC_, TA_], [TC_], []]]}},
 }
@@ -60,9 +62,15 @@ def build_registry(rspec):
             params, b = EXT_DEFS[name]["types"][tn]
             e.add_type_def(ext.TypeDef(tn, f"{tn} description", [T.build_param(p) for p in params], ext.ExplicitBound(Bd[b[1]]) if b[0] == "Explicit" else ext.FromParamsBound(list(b[1]))))
         for on in v[1]:
-            e.add_op_def(ext.OpDef(on, ext.OpDefSig(T.build_type(EXT_DEFS[name]["ops"][on])), f"definition of {on}"))
+            e.add_op_def(ext.OpDef(on, _opdef_sig(EXT_DEFS[name]["ops"][on]), f"definition of {on}"))
         reg.add_extension(e)
     return reg
+
+
+def _opdef_sig(poly):
+    from hugr import ext
+
+    return ext.OpDefSig(None, binary=True) if poly is None else ext.OpDefSig(T.build_type(poly))
 
 
 def has_type(rspec, extname, tid):
@@ -312,6 +320,12 @@ def hugr_docs():
         inner.set_outputs(n2)
     d.set_outputs(n1, *inner)
     docs.append(("ob-twice", d.hugr.to_json(), [("x.ext", "ob"), ("x.ext", "ob")]))
+    # an op whose definition computes its signature: type arguments (a type, a sequence of types) hold opaque types as well
+    d = Dfg(tc, ta)
+    c, a = d.inputs()
+    n1 = d.add(custom("x.ext", "obin", [tc, ta], [tb_c], ["x.ext"], [tc.type_arg(), tys.SequenceArg([ta.type_arg(), tb_a.type_arg()]), tys.BoundedNatArg(2)])(c, a))
+    d.set_outputs(n1)
+    docs.append(("obin", d.hugr.to_json(), [("x.ext", "obin")]))
     # an op whose name the extension may lack
     d = Dfg(ta)
     n = d.add(custom("x.ext", "omissing", [ta], [], ["x.ext"])(d.inputs()[0]))
@@ -378,6 +392,9 @@ def check_hugr(di, rspec):
             for leaf in _opaque_leaves(op.outer_signature()):
                 if has_type(rspec, leaf[0], leaf[1]):
                     fails.append(("hugr:signature-type-unresolved", f"{name} under {rspec}: type {leaf[0]}.{leaf[1]} in the resolved op's signature was left opaque"))
+            for leaf in [x for a in op.args for x in _opaque_arg_leaves(a)]:
+                if has_type(rspec, leaf[0], leaf[1]):
+                    fails.append(("hugr:type-arg-unresolved", f"{name} under {rspec}: type {leaf[0]}.{leaf[1]} in the type arguments of resolved op {extn}.{opn} was left opaque"))
     for a, b in zip(v0, v1):
         if a["op"] != b["op"]:
             keys = [k for k in a["op"] if a["op"][k] != b["op"].get(k)]
@@ -474,7 +491,7 @@ def check_refused_registration(rspec):
                 clash.add_type_def(ext.TypeDef(tn, "clash", [T.build_param(p) for p in params], ext.ExplicitBound(__import__("hugr").tys.TypeBound.Any)))
         for on, poly in EXT_DEFS[name]["ops"].items():
             if on not in v[1]:
-                clash.add_op_def(ext.OpDef(on, ext.OpDefSig(T.build_type(poly)), "clash"))
+                clash.add_op_def(ext.OpDef(on, _opdef_sig(poly), "clash"))
         try:
             reg.add_extension(clash)
             fails.append(("registry:duplicate-accepted", f"{rspec}: a second extension named {name} was accepted"))
@@ -489,18 +506,26 @@ def check_refused_registration(rspec):
     return fails
 
 
+def _opaque_arg_leaves(a):
+    from hugr import tys
+
+    if isinstance(a, tys.TypeTypeArg):
+        yield from _opaque_leaves(a.ty)
+    elif isinstance(a, tys.SequenceArg):
+        for x in a.elems:
+            yield from _opaque_arg_leaves(x)
+
+
 def _opaque_leaves(t):
     from hugr import tys
 
     if isinstance(t, tys.Opaque):
         yield (t.extension, t.id)
         for a in t.args:
-            if isinstance(a, tys.TypeTypeArg):
-                yield from _opaque_leaves(a.ty)
+            yield from _opaque_arg_leaves(a)
     elif isinstance(t, tys.ExtType):
         for a in t.args:
-            if isinstance(a, tys.TypeTypeArg):
-                yield from _opaque_leaves(a.ty)
+            yield from _opaque_arg_leaves(a)
     elif isinstance(t, tys.Sum):
         for r in t.variant_rows:
             for x in r:
